@@ -76,7 +76,7 @@ def count_range(f, start, region, events):
 
 def run(ctx, res):
     P = ctx.P
-    reach, inv = PI.run(ctx, res, LAYERS, floor_fns=540, floor_sites=250)
+    reach, inv = PI.run(ctx, res, LAYERS, floor_fns=545, floor_sites=250)
     f = P.require_fn("lsp::handle_message")
     push_blocks = {bi for bi, t in f.calls() if is_push(t)}
     res.floor("ARM-SHAPE", "push_* calls in handle_message", len(push_blocks), 14)
